@@ -159,7 +159,7 @@ def obs_tier(t):
     return (
         type(t).__name__,
         t.name,
-        repr(tuple(tuple(e) for e in t.entries)),
+        repr(tuple((type(e).__name__,) + tuple(e) for e in t.entries)),
         repr(t.minTimestamp),
         repr(t.maxTimestamp),
     )
